@@ -1,4 +1,11 @@
 import Rtsp.Props.C11
 open Rtsp.Ledger.C11
 #print axioms code_shape
+#print axioms every_input_answered_or_closed
+#print axioms request_answered
 #print axioms request_answered_first
+#print axioms silence_closes
+#print axioms error_iff_400_454
+#print axioms error_closes_after_response
+#print axioms error_close_emitted
+#print axioms no_error_keeps_open
